@@ -1,3 +1,4 @@
+import GoRedisModel.Proofs.SourceFacts
 import GoRedisModel.Proofs.Loop
 import GoRedisModel.Proofs.Frame
 /-! # C03 — every command gets exactly one reply, in order, without needing more input -/
@@ -121,5 +122,11 @@ example : ∃ r0' : Reader, inext 40 ⟨[b!"*1\r\n$4", b!"\r\nPI", b!"NG\r\n"] +
   obtain ⟨r0', _, h2, h3⟩ := C03_no_read_ahead (.arr [.bulk (some b!"PING")]) (by simp [wf, wfs, maxBulk, maxInt])
     [b!"*1\r\n$4", b!"\r\nPI", b!"NG\r\n"] [b!"*1\r\n", b!"$4\r\nQUIT\r\n"] (by decide) 40 (by decide) (by decide)
   exact ⟨r0', h3, h2⟩
+
+/-- **The source is the one the model was written from** (regenerated on every run): the connection loop (`serveConn`, `receive`, `dispatch`, `handleMessage`, `responseMessage`, `executeCommand`, `upperASCII`) of the current source
+have the fingerprints recorded in the model; a change to any of them means the theorems above are not shown for the code
+as it is now, until the model has been compared with it again -/
+theorem C03_source_conn_loop_is_the_modelled_one :
+    connLoopModelled.all (fun e => Generated.serverFingerprints.contains (e.1, e.2.1)) = true := source_conn_loop_is_the_modelled_one
 
 end GoRedis
